@@ -115,6 +115,7 @@ type Exec struct {
 	poolMode    int
 	oracleArg   map[string]Value
 	oracleArgs  map[string][]Value
+	digestLog   []digestRec
 	strAliases  []strAlias // strings made by unsafe.String: views of mutable byte cells // every value recorded under a name (e.g. keys of successful RSA verifications)
 	replacers   map[*Value][][2]*StrV
 	digests     map[string][]Value
